@@ -1,6 +1,7 @@
 import ObiVerif.Model.Tag
 import ObiVerif.Model.TagSel
 import ObiVerif.Model.TagV
+import ObiVerif.Model.TagTV
 import ObiVerif.Driver.Util
 /-!
 line protocol for C15 (see `harness/c15.go`)
@@ -28,7 +29,8 @@ qg A maxlen / qgn A k                                           -> count minslac
 ```
 fv1|fv2 Q R1,… | o…                       -> as fc   (findClosestsV: every kernel call VERBATIM, nothing measured)
 iv  s R1,… T1,… id:parent,… | o…          -> as ix   (indexSequenceV)
-dv1|dv2 Q R1,… T1,… id:parent,… | o… | o… | …  -> as id   (findClosestsV + indexSequenceV + text selection loop)
+dv1|dv2 Q R1,… T1,… id:parent,… | o… | o… | …  -> as id   (identifyTextV: findClosestsV + indexSequenceV + text selection loop)
+iv3 Q R1,… T1,… id:parent,… H C1,… | C i,… | o… | o… … | F f i,… | o… | …  -> as id3 (identify2V)
 ```
 the `*v` operations get NOTHING from the real kernels: only the candidate order(s) of the real (unstable) sort; the
 model runs the verbatim `FastLCSEGFScoreByte` (shared scratch buffer), `D1Or0`, byte comparison of `Model/TagV.lean`
@@ -174,22 +176,12 @@ def runDV (op q rs ts tx : String) (secs : List String) : String :=
       match rows with
       | none => "bad-data"
       | some rows =>
-        let t := mkTaxo nodes
-        let fuel := nodes.length + 1
-        let rf := refFun refs
-        match findClosestsV (variantOf op) q rf o with
-        | .error _ => "panic"
-        | .ok fc =>
-          let indexT := fun b =>
-            match rows[b]? with
-            | some ob =>
-              match indexSequenceV t fuel taxids b rf ob with
-              | .error _ => .error .panic
-              | .ok r => r.map (textIndex nameOf rankOf)
-            | none => .error .panic
-          match identifyText t fuel fc indexT with
-          | .bad e => showBad e
-          | .ok z m n => s!"{z} {m} {n}"
+        -- `identifyTextV` (Model/TagTV.lean): every kernel call verbatim + text indices + verbatim selection loop
+        let ra := rows.toArray
+        match identifyTextV (mkTaxo nodes) (nodes.length + 1) (variantOf op) nameOf rankOf q (refFun refs) taxids o
+            (fun b => ra.getD b []) with
+        | .bad e => showBad e
+        | .ok z m n => s!"{z} {m} {n}"
   | _, _, _, _ => "bad-op"
 
 def runID (op q rs ts tx : String) (secs : List String) : String :=
@@ -338,6 +330,57 @@ def runID3 (q rs ts tx h cnt : String) (secs : List String) : String :=
         | .ok z bm w (.family f) => s!"{z} {(membersOf f).getD bm 0} {w} lcs"
   | _, _, _, _, _, _ => "bad-op"
 
+/-- a block `members | order(q) | order(member 0) | …` of an `iv3` line: only candidate orders -/
+def parseBlockV (q : Bytes) (refs : List Bytes) (members : List Nat) (rows : List String) :
+    Option (List Nat × Array (List Nat)) := do
+  let mrefs := members.map fun i => refs.getD i []
+  if rows.length ≠ members.length + 1 then none else
+  let o ← orderOnly q mrefs (rows.headD "")
+  let idxRows ← ((List.range members.length).zip (rows.drop 1)).mapM fun (j, sec) => orderOnly (mrefs.getD j []) mrefs sec
+  pure (o, idxRows.toArray)
+
+/-- `iv3` : as `id3`, run by `identify2V` (Model/TagTV.lean): every kernel call verbatim in the searches and in
+`IndexSequence` of each list, text indices, verbatim selection loop; only the candidate orders are data -/
+def runIV3 (q rs ts tx h cnt : String) (secs : List String) : String :=
+  match unhex q, listOf unhex rs, listOf String.toNat? ts, listOf pairOf tx, listOf String.toNat? cnt, splitBlocks secs [] with
+  | some q, some refs, some taxids, some nodes, some counts, some blocks =>
+    if taxids.length ≠ refs.length ∨ counts.length ≠ refs.length ∨ h.length ≠ refs.length then "bad-op" else
+    let t := mkTaxoR nodes
+    let fuel := nodes.length + 1
+    let same := fun j => decide (refs[j]? = some q)
+    let exact := exactEntry t fuel same taxids counts
+    let parsed := blocks.mapM fun (hd, rows) =>
+      match hd with
+      | ["C", ms] => do
+        let ms ← listOf String.toNat? ms
+        let b ← parseBlockV q refs ms rows
+        pure ((none : Option Nat), ms, b)
+      | ["F", f, ms] => do
+        let f ← String.toNat? f
+        let ms ← listOf String.toNat? ms
+        let b ← parseBlockV q refs ms rows
+        pure (some f, ms, b)
+      | _ => none
+    match parsed with
+    | none => "bad-data"
+    | some bl =>
+      match bl.find? (fun x => x.1.isNone) with
+      | none => "bad-data"
+      | some (_, msC, (oC, owsC)) =>
+        let famOf := fun f => bl.find? (fun x => x.1 = some f)
+        let membersOf := fun f => ((famOf f).map fun x => x.2.1).getD []
+        let subRefs := fun (ms : List Nat) => refFun (ms.map fun i => refs.getD i [])
+        let subTax := fun (ms : List Nat) => ms.map fun i => taxids.getD i 0
+        match identify2V t fuel nameOf rankOf exact q (subRefs msC) (subTax msC) oC (fun b => owsC.getD b [])
+            (fun f => (famOf f).isSome) (fun f => subRefs (membersOf f)) (fun f => subTax (membersOf f))
+            (fun f => ((famOf f).map fun x => x.2.2.1).getD [])
+            (fun f b => (((famOf f).map fun x => x.2.2.2).getD #[]).getD b []) with
+        | .bad e => showBad e
+        | .ok z bm w .exact => s!"{z} {bm} {w} exact"
+        | .ok z bm w .clusters => s!"{z} {msC.getD bm 0} {w} lcs"
+        | .ok z bm w (.family f) => s!"{z} {(membersOf f).getD bm 0} {w} lcs"
+  | _, _, _, _, _, _ => "bad-op"
+
 def run (line : String) : String :=
   match line.splitOn " | " with
   | [] => "bad-op"
@@ -360,6 +403,7 @@ def run (line : String) : String :=
     | ["sl1", q, rs, ts, tx, ixs], [sec] => runSL "sl1" q rs ts tx ixs sec
     | ["sl2", q, rs, ts, tx, ixs], [sec] => runSL "sl2" q rs ts tx ixs sec
     | ["id3", q, rs, ts, tx, h, cnt], secs => runID3 q rs ts tx h cnt secs
+    | ["iv3", q, rs, ts, tx, h, cnt], secs => runIV3 q rs ts tx h cnt secs
     | ["qg", a, n], [] =>
       match unhex a, n.toNat? with
       | some a, some n =>
